@@ -132,6 +132,7 @@ fn run_history(p: &Params, rep: &Report) -> Option<u64> {
                 let call = ticket();
                 q.append(IdEntry::new(prod, seq));
                 calls.push((make_id(prod, seq), call, ticket()));
+                vcommon::sync::progress_tick();
                 if rng.below(1000) < p.flush_pm {
                     let f = q.flush_async();
                     if rng.bool() {
